@@ -1,0 +1,84 @@
+//go:build verif
+
+package dirreader
+
+// Contracts for the verification tooling (build tag "verif"). Comment-only: never compiled into the daemon.
+// dirname(e) / isdir(e): name and directory flag of a directory entry (uninterpreted functions of the entry).
+// rdstream(r, k): k-th newline-terminated record behind reader r; rdrec(r): records returned so far;
+// rdgood(r): bytes of the records returned so far (the unterminated tail is never part of it).
+
+// LogName(n): n is the live log or a rotation "audit.log.N" with N >= 1 in canonical decimal.
+//@ pred LogName(n) := n == "audit.log" || (prefixof("audit.log.", n) && inre(substr(n, 10, len(n) - 10), "[1-9][0-9]*"))
+// Age(n): 0 for the live log, N for audit.log.N (larger = older).
+//@ pred Age(n) := ite(n == "audit.log", 0, atoi(substr(n, 10, len(n) - 10)))
+//@ pred Keep(e) := !isdir(e) && prefixof("audit.log", dirname(e))
+
+//@ func sortLogNamesOldToNew
+//@   requires forall k int :: 0 <= k && k < len(dirEntries) ==> dirEntries[k] != nil && (Keep(dirEntries[k]) ==> LogName(dirname(dirEntries[k])))
+//@   ensures[ordered] forall i int, j int :: 0 <= i && i < j && j < len(result) ==> Age(result[i]) >= Age(result[j])
+//@   ensures[members] forall k int :: 0 <= k && k < len(result) ==> (exists m int :: 0 <= m && m < len(dirEntries) && Keep(dirEntries[m]) && result[k] == dirname(dirEntries[m]))
+//@   ensures[all] forall m int :: 0 <= m && m < len(dirEntries) && Keep(dirEntries[m]) ==> (exists k int :: 0 <= k && k < len(result) && result[k] == dirname(dirEntries[m]))
+//@   loop sortLogNamesOldToNew#1 invariant[idx] 0 - 1 <= rangeindex && rangeindex < len(dirEntries) && oldestToNew.off == 0 && oldestToNew != nil
+//@   loop sortLogNamesOldToNew#1 invariant[members] forall k int :: 0 <= k && k < len(oldestToNew) ==> LogName(oldestToNew[k]) && (exists m int :: 0 <= m && m <= rangeindex && Keep(dirEntries[m]) && oldestToNew[k] == dirname(dirEntries[m]))
+//@   loop sortLogNamesOldToNew#1 invariant[all] forall m int :: 0 <= m && m <= rangeindex && Keep(dirEntries[m]) ==> (exists k int :: 0 <= k && k < len(oldestToNew) && oldestToNew[k] == dirname(dirEntries[m]))
+
+//@ pred LineOf(lines, k, r, first) := sent(lines, k).value ++ "\n" == rdstream(r, k - first)
+
+//@ func readLines
+//@   requires ctx != nil && reader != nil && lines != nil
+//@   ensures[reader] rdcount == old(rdcount) + 1
+//@   ensures[bytes] result0 == rdgood(lastreader)
+//@   ensures[lines] forall k int :: old(sentlen(lines)) <= k && k < sentlen(lines) ==> LineOf(lines, k, lastreader, old(sentlen(lines)))
+//@   ensures[all] result1 == nil ==> sentlen(lines) - old(sentlen(lines)) == rdrec(lastreader)
+//@   ensures[atmostone] sentlen(lines) - old(sentlen(lines)) == rdrec(lastreader) || sentlen(lines) - old(sentlen(lines)) + 1 == rdrec(lastreader)
+//@   ensures[err] result1 != nil ==> cancelled(ctx) || result1 == rdlasterr(lastreader)
+//@   loop readLines#1 invariant[reader] bufioReader != nil && bufioReader == lastreader && rdcount == old(rdcount) + 1
+//@   loop readLines#1 invariant[bytes] numBytesRead == rdgood(bufioReader) && numBytesRead >= 0
+//@   loop readLines#1 invariant[count] sentlen(lines) - old(sentlen(lines)) == rdrec(bufioReader) && sentlen(lines) >= old(sentlen(lines))
+//@   loop readLines#1 invariant[lines] forall k int :: old(sentlen(lines)) <= k && k < sentlen(lines) ==> LineOf(lines, k, bufioReader, old(sentlen(lines)))
+
+//@ func readFilePathLines
+//@   requires ctx != nil && fsi != nil && l != nil
+
+//@ func (*rotatingFile).setOffset
+//@   requires o != nil
+//@   modifies o.offset
+//@   ensures[set] o.offset == i
+
+//@ func (*rotatingFile).incOffsetBy
+//@   requires o != nil && i >= 0 && o.offset >= 0 && o.offset + i <= 9223372036854775807
+//@   modifies o.offset
+//@   ensures[inc] o.offset == old(o.offset) + i && result == o.offset
+
+//@ func (*rotatingFile).getOffset
+//@   requires o != nil
+//@   modifies nothing
+//@   ensures[get] result == o.offset
+
+// Assumed contracts of the file-system abstractions (any implementation): open/stat return exactly one of (value, error).
+//@ ifacemethod fileSystem.Open
+//@   modifies nothing
+//@   ensures (result0 != nil) <==> (result1 == nil)
+//@ fieldfunc rotatingFile.openFn
+//@   modifies nothing
+//@   ensures (result0 != nil) <==> (result1 == nil)
+//@ ifacemethod statReadSeekCloser.Stat
+//@   modifies nothing
+//@   ensures (result0 != nil) <==> (result1 == nil)
+//@ ifacemethod statReadSeekCloser.Seek
+//@   modifies nothing
+//@ ifacemethod statReadSeekCloser.Close
+//@   modifies nothing
+
+// fsnotify.Op: Create = 1, Write = 2, Remove = 4, Rename = 8, Chmod = 16.
+//@ pred Resets(op) := op == 1 || op == 4 || op == 8
+//@ pred StartOff(o) := ite(o.lastSz < old(o.lastSz), 0, old(o.offset))
+
+//@ func (*rotatingFile).read
+//@   requires o != nil && ctx != nil && o.lines != nil && o.openFn != nil && o.offset >= 0 && o.offset <= 4611686018427387904
+//@   assert_at statReadSeekCloser.Seek[start] whence == 0 && offset == StartOff(o)
+//@   ensures[reset] Resets(op) ==> result == nil && o.offset == 0 && o.lastSz == old(o.lastSz) && sentlen(o.lines) == old(sentlen(o.lines))
+//@   ensures[ignore] !Resets(op) && op != 2 ==> result == nil && o.offset == old(o.offset) && o.lastSz == old(o.lastSz) && sentlen(o.lines) == old(sentlen(o.lines))
+//@   ensures[write] op == 2 && result == nil ==> o.offset == StartOff(o) + rdgood(lastreader) && sentlen(o.lines) - old(sentlen(o.lines)) == rdrec(lastreader)
+//@   ensures[lines] op == 2 && rdcount == old(rdcount) + 1 ==> (forall k int :: old(sentlen(o.lines)) <= k && k < sentlen(o.lines) ==> LineOf(o.lines, k, lastreader, old(sentlen(o.lines))))
+//@   ensures[nolines] rdcount == old(rdcount) ==> sentlen(o.lines) == old(sentlen(o.lines))
